@@ -73,6 +73,13 @@ type vC04HistPlan struct {
 	ExtraTTL uint32 `json:"extra_ttl"` // 0: no additional section
 	How      int    `json:"how"`       // 0 SetFromResponseWithKey, 2 client path, 3 Cache.Set, 4 ReplaceIfCurrent
 	LeaseMs  int64  `json:"lease_ms"`  // 0: no lease
+	// Neg != "": a DNSSEC-signed negative answer instead ("nxdomain" | "nodata"): SOA with TTL and
+	// MINIMUM = TTL, its RRSIG ending SoaSigS seconds from now, one NSEC with NsecTTL whose RRSIG
+	// ends NsecSigS seconds from now (the signature windows are wall-clock terms of the admission)
+	Neg      string `json:"neg"`
+	SoaSigS  int64  `json:"soa_sig_s"`
+	NsecTTL  uint32 `json:"nsec_ttl"`
+	NsecSigS int64  `json:"nsec_sig_s"`
 	Steps    []struct {
 		ShiftMs int64 `json:"shift_ms"`
 		Route   int   `json:"route"` // 0 cache alone, 1 edns+cache byte path, 2 wire-born, 3 forced Msg path, 4 Store.GetWithContext
@@ -230,6 +237,17 @@ func vC04CaseHist(out *vC04Out, r *rand.Rand, plan *vC04HistPlan) {
 		resp.Answer = []dns.RR{&dns.A{Hdr: dns.RR_Header{Name: name, Rrtype: dns.TypeA, Class: dns.ClassINET, Ttl: plan.TTL}, A: []byte{192, 0, 2, 1}}}
 		if plan.ExtraTTL != 0 {
 			resp.Extra = []dns.RR{&dns.A{Hdr: dns.RR_Header{Name: "ns1.c04.test.", Rrtype: dns.TypeA, Class: dns.ClassINET, Ttl: plan.ExtraTTL}, A: []byte{192, 0, 2, 53}}}
+		}
+		if plan.Neg != "" {
+			zone, nowUnix := "c04.test.", time.Now().Unix()
+			kind, signed = 2, true
+			if plan.Neg == "nxdomain" {
+				kind, resp.Rcode = 1, dns.RcodeNameError
+			}
+			resp.Answer, resp.AuthenticatedData = nil, true
+			resp.Ns = []dns.RR{vC04SOA(zone, plan.TTL, plan.TTL), vC04Sig(zone, dns.TypeSOA, plan.TTL, nowUnix+plan.SoaSigS, zone),
+				&dns.NSEC{Hdr: dns.RR_Header{Name: "a." + zone, Rrtype: dns.TypeNSEC, Class: dns.ClassINET, Ttl: plan.NsecTTL}, NextDomain: "z." + zone, TypeBitMap: []uint16{dns.TypeA, dns.TypeRRSIG, dns.TypeNSEC}},
+				vC04Sig("a."+zone, dns.TypeNSEC, plan.NsecTTL, nowUnix+plan.NsecSigS, zone)}
 		}
 		hasCut, cutOff = plan.LeaseMs != 0 && how != 3, time.Duration(plan.LeaseMs)*time.Millisecond
 	}
